@@ -46,7 +46,7 @@ func uniqueValue(c *chr, w, k int) interface{} {
 	case "float":
 		return c.lo + float64(k+1)/64.0
 	default:
-		return fmt.Sprintf("w%d-%d", w, k)
+		return fmt.Sprintf("w%d-%d%s", w, k, stringTokens[k%len(stringTokens)])
 	}
 }
 
